@@ -777,7 +777,8 @@ theorem sublist_of_shows : ∀ (ds : List VecSt) (as : List (Option AVec)), ds.l
 /-- **one owner per identity, on the abstract side**: in every abstract state a world shows, no identity occurs twice
 among all the vectors, every one is older than the counter, and none of them has been destroyed -/
 theorem mrel_unique (w : World) (ms : MSpec) (h : MRel w ms) :
-    ms.allItems.Nodup ∧ (∀ id ∈ ms.allItems, id < ms.next) ∧ ∀ id ∈ ms.allItems, id ∉ w.dropLog := by
+    ms.allItems.Nodup ∧ (∀ id ∈ ms.allItems, id < ms.next) ∧ (∀ id ∈ ms.allItems, id ∉ w.dropLog) ∧
+      ∀ id ∈ ms.allItems, id ∉ w.held := by
   obtain ⟨hinv, _, hn, hlen, hsh⟩ := h
   have hsub := sublist_of_shows w.vecs ms.vecs hlen hsh
   have hvis : List.Sublist (ms.allItems.map Cell.val) w.allVis := hsub
@@ -786,7 +787,13 @@ theorem mrel_unique (w : World) (ms : MSpec) (h : MRel w ms) :
     rw [List.append_assoc]
     exact List.sublist_append_left _ _
   have hnd : (ms.allItems.map Cell.val).Nodup := (hvis.trans hall).nodup hinv.nodup
-  refine ⟨List.Pairwise.of_map Cell.val (fun a b hab hc => hab (by rw [hc])) hnd, ?_, ?_⟩
+  have hnd' : (w.allVis ++ (w.held.map Cell.val ++ w.dropLog.map Cell.val)).Nodup := by
+    have : List.Sublist (w.allVis ++ (w.held.map Cell.val ++ w.dropLog.map Cell.val)) w.all := by
+      unfold World.all World.owned
+      exact List.sublist_append_left _ _
+    exact this.nodup hinv.nodup
+  rw [List.nodup_append] at hnd'
+  refine ⟨List.Pairwise.of_map Cell.val (fun a b hab hc => hab (by rw [hc])) hnd, ?_, ?_, ?_⟩
   · intro id hid
     have hmem : Cell.val id ∈ w.all := (hvis.trans hall).subset (List.mem_map_of_mem hid)
     rw [← hn]; exact hinv.bound id hmem
@@ -795,12 +802,11 @@ theorem mrel_unique (w : World) (ms : MSpec) (h : MRel w ms) :
     have h1 : Cell.val id ∈ w.allVis := hvis.subset (List.mem_map_of_mem hid)
     have h2 : Cell.val id ∈ w.held.map Cell.val ++ w.dropLog.map Cell.val :=
       List.mem_append_right _ (List.mem_map_of_mem hdrop)
-    have hnd' : (w.allVis ++ (w.held.map Cell.val ++ w.dropLog.map Cell.val)).Nodup := by
-      have : List.Sublist (w.allVis ++ (w.held.map Cell.val ++ w.dropLog.map Cell.val)) w.all := by
-        unfold World.all World.owned
-        exact List.sublist_append_left _ _
-      exact this.nodup hinv.nodup
-    rw [List.nodup_append] at hnd'
+    exact hnd'.2.2 _ h1 _ h2 rfl
+  · intro id hid hheld
+    have h1 : Cell.val id ∈ w.allVis := hvis.subset (List.mem_map_of_mem hid)
+    have h2 : Cell.val id ∈ w.held.map Cell.val ++ w.dropLog.map Cell.val :=
+      List.mem_append_left _ (List.mem_map_of_mem hheld)
     exact hnd'.2.2 _ h1 _ h2 rfl
 
 /-! ### one abstract machine for whole life cycles -/
@@ -941,6 +947,22 @@ theorem life_cycles_refine_or_stuck (cfg : Cfg) (ops : List AOp) :
 def sampleScript : List AOp := [.new 0 .heap true, .on 0 .push, .drop 0]
 
 example : (arun { size := 8, align := 8, hasDrop := true } {} sampleScript).dropLog = [0] := by decide
+
+/-- `Safe` is satisfiable: a script that creates a heap vector, pushes and drops it is well-typed from the empty state,
+whatever the abstract machine does on the way (growth to any capacity, refusal of the push) -/
+example : Safe { size := 8, align := 8, hasDrop := true } ⟨[], 0⟩ [.new 0 .heap true, .on 0 .push, .drop 0] := by
+  refine ⟨trivial, ?_⟩
+  intro ms1 h1
+  cases h1 with
+  | new _ _ _ cap hb =>
+    refine ⟨⟨_, rfl, trivial⟩, ?_⟩
+    intro ms2 h2
+    cases h2 with
+    | on _ _ _ hs =>
+      cases hs with
+      | on _ _ a s' hv hop hs' =>
+        refine ⟨⟨⟨a.ty, s'.items, s'.cap, s'.fixed, s'.cloneable⟩, by simp⟩, fun _ _ => trivial⟩
+  | newRefused _ _ _ m hb => simp [VecSt.buildCap] at hb
 
 end RefineMulti
 end AnyVec
